@@ -35,6 +35,19 @@ def run(ck):
         cid = ck.new_id()
         base_cases.append({"k": "rule", "id": cid, "rule": rule_text(det), "docs": docs, "sw": sws})
         pref_cases.append({"k": "rule", "id": cid, "rule": rule_text(prefix_rule(det)), "docs": docs, "sw": sws})
+    # values that are NOT string patterns (YAML booleans, numbers) next to string members, under every key
+    # form: they cannot be i-prefixed and must mean the same in both builds; documents in other letter cases
+    lit_docs = [D({"f": v}) for v in ("TRUE", "True", "true", "FALSE", "5", "x", "X", True, False, 5, "5.5", 5.5, "5.5E0")] + [D({})]
+    for key in ("f", "str(f)", "all(f)", "of(f, 1)", "not(f)"):
+        for val in (True, False, 5, 5.5, [True, False], [True, "x"], ["X", True], [5, "x"], [5, 6], [True, 5], [5.5, "x"], [False]):
+            if key in ("all(f)", "of(f, 1)") and not isinstance(val, list):
+                continue
+            for cond in ("A", "not A"):
+                det = {"A": {key: val}, "condition": cond}
+                cid = ck.new_id()
+                base_cases.append({"k": "rule", "id": cid, "rule": rule_text(det), "docs": lit_docs, "sw": sws})
+                pref_cases.append({"k": "rule", "id": cid, "rule": rule_text(prefix_rule(det)), "docs": lit_docs, "sw": sws})
+                ck.count("family:non_string_literals")
     # pattern level: every pattern text through into_identifier in both builds
     pats = gen.STR_PATTERNS + gen.NUM_PATTERNS + ["Foo*", "*BAR", "'Q'", "?A+", "É*", "iÉ", "I", "iI", ">=5", ""]
     id_base = [{"k": "ident", "id": ck.new_id(), "s": p} for p in pats]
